@@ -107,7 +107,7 @@ def run(tier, seed):
                 for k in range(1, counts.get(rank, 0) + 1):
                     for cls in classes:
                         execs.append({"x": "%s_n%d_r%d_k%d_%s" % (n, np_, rank, k, cls[8:]), "np": np_, "prog": n,
-                                      "steps": [{"op": "shim", "kth": k, "cls": cls, "rank": rank}] + [dict(s, obs=["io", "mpi"]) for s in st]})
+                                      "steps": [{"op": "shim", "kth": k, "cls": cls, "rank": rank, "stop": True}] + [dict(s, obs=["io", "mpi"]) for s in st]})
         nexec += len(execs)
         samples += [e["x"] for e in execs[:3]]
         kw = dict(np=np_, shim=True, header=(lambda evs, n=np_: {"np": n}), to_events=vlib.flatn, per_step_timeout=12, per_launch=40)
